@@ -291,10 +291,14 @@ inline Config genConfig(const Profile &pf) {
   std::set<std::string> usedLong;
   for (char b : builtinShortKeys(c.flags)) usedShort.insert(b);
   for (auto &b : builtinLongKeys(c.flags)) usedLong.insert(b);
+  // now and then a configuration that is mostly requires/excludes bookkeeping: 3-5 cheap arguments (flags first), 3-6
+  // constraints among them, nothing that keeps an argument out of a relation
+  const bool dense = pf.argConstraints && pf.onlyKind < 0 && pf.flagsArgs && pick(10);
+  if (dense) { n = std::min(pf.maxArgs, *range<int>(3, 5)); havePositional = true; }
   // value constraints need two same-typed arguments: force such pairs now and then
   int forcePair = -1, forceCount = 2;
   std::set<int> forcedArgs;
-  if (pf.handlerConstraints && pf.onlyKind < 0) {
+  if (pf.handlerConstraints && pf.onlyKind < 0 && !dense) {
     int r = *range<int>(0, 99);
     if (r < 12) { forcePair = pick(50) ? K_INT : K_STRING; forceCount = *range<int>(2, 4); }   // differ over 2..4 arguments
     else if (r < 22) forcePair = K_VEC_INT;
@@ -305,6 +309,7 @@ inline Config genConfig(const Profile &pf) {
     int kind = oneOf(kinds);
     const bool forced = forcePair >= 0 && i < forceCount;   // reserved for the value constraint: kept optional, visible, unrelated
     if (forced) kind = forcePair;
+    else if (dense) kind = i < 4 ? K_FLAG : K_INT;
     else
     if (pf.onlyKind < 0 && pf.flagsArgs && pf.scalars && pick(45)) kind = pick(35) ? K_FLAG : oneOf(std::vector<int>{K_INT, K_STRING, K_INT, K_STRING, K_LONG, K_UINT, K_DOUBLE, K_OPT_INT, K_OPT_STRING});
     int slot = -1;
@@ -331,7 +336,7 @@ inline Config genConfig(const Profile &pf) {
     // attributes
     if (isContainer(kind)) genContainerOptions(a, kind, pf);
     if (a.spec == "-") a.multiValue = false;
-    if (pf.mandatory && kind != K_FLAG && !forced && pick(25)) a.mandatory = true;
+    if (pf.mandatory && kind != K_FLAG && !forced && !dense && pick(25)) a.mandatory = true;
     if (pf.checks && kind != K_FLAG && kind != K_DOUBLE && !isKeyValue(kind) && kind != K_TUPLE_ISI && pick(55)) genChecks(a, kind);
     if (pf.formats && (kind == K_STRING || kind == K_OPT_STRING || kind == K_VEC_STRING) && !findCheck(a, CH_PATTERN) && !findCheck(a, CH_VALUES) && pick(40)) a.format = pick(50) ? 1 : 2;
     if (pf.formats && (kind == K_VEC_STRING || kind == K_TUPLE_ISI) && !findCheck(a, CH_PATTERN) && !findCheck(a, CH_VALUES) && pick(45)) {
@@ -377,7 +382,7 @@ inline Config genConfig(const Profile &pf) {
     for (size_t i = 0; i < c.args.size(); ++i) {
       auto &a = c.args[i];
       if (pick(15)) a.hidden = true;
-      if (!a.mandatory && !forcedArgs.count(static_cast<int>(i)) && pick(12)) { a.deprecated = true; if (pick(50)) a.replacedBy = "--something-else"; }
+      if (!a.mandatory && !forcedArgs.count(static_cast<int>(i)) && !dense && pick(12)) { a.deprecated = true; if (pick(50)) a.replacedBy = "--something-else"; }
     }
   // argument constraints (requires / excludes). Targets may be shared between several constraining arguments and an
   // argument may be source and target; 'requires' edges only go from a lower to a higher argument index (no cycles).
@@ -385,11 +390,13 @@ inline Config genConfig(const Profile &pf) {
   std::set<int> inRelation;
   auto freeArgs = [&]() { std::vector<int> v; for (size_t i = 0; i < c.args.size(); ++i) if (!inRelation.count(static_cast<int>(i)) && !c.args[i].deprecated && !c.args[i].mandatory) v.push_back(static_cast<int>(i)); return v; };
   if (pf.argConstraints) {
-    int tries = *range<int>(0, 4);
+    int tries = dense ? *range<int>(3, 6) : *range<int>(0, 5);
     std::vector<int> cand;
     for (size_t i = 0; i < c.args.size(); ++i) if (!c.args[i].deprecated && !c.args[i].mandatory && !forcedArgs.count(static_cast<int>(i))) cand.push_back(static_cast<int>(i));
     for (int t = 0; t < tries && cand.size() >= 2; ++t) {
       int x = oneOf(cand);
+      // now and then an argument that already has a constraint gets another one (key lists, several pending entries)
+      if (pick(35)) { std::vector<int> holders; for (int q : cand) if (!c.args[q].constraints.empty()) holders.push_back(q); if (!holders.empty()) x = oneOf(holders); }
       // prefer a target that is already in a relation: shared targets are where the bookkeeping gets interesting
       std::vector<int> targets;
       if (!inRelation.empty() && pick(50)) for (int r : inRelation) if (std::find(cand.begin(), cand.end(), r) != cand.end()) targets.push_back(r);
@@ -403,10 +410,19 @@ inline Config genConfig(const Profile &pf) {
       for (auto &ct : c.args[y].constraints) if (ct.second == x && (ct.first == CT_REQUIRES || type == CT_REQUIRES)) dup = true;
       if (dup) continue;
       c.args[x].constraints.push_back({type, y});
+      // the way the constraint is written: other argument by complete specification / short key / long key; joined to the
+      // previous constraint's key list
+      {
+        int style = *rc::gen::weightedElement<int>({{5, 0}, {2, 1}, {2, 2}});
+        if (c.args[y].spec == "-") style = 0;
+        if (c.args[x].constraints.size() >= 2 && c.args[x].constraints[c.args[x].constraints.size() - 2].first == type && pick(60)) style |= 4;
+        c.args[x].ctStyle.resize(c.args[x].constraints.size() - 1, 0);
+        c.args[x].ctStyle.push_back(style);
+      }
       inRelation.insert(x); inRelation.insert(y);
     }
   }
-  if (pf.handlerConstraints) {
+  if (pf.handlerConstraints && !dense) {
     int tries = *range<int>(0, 2);
     if (forcePair >= 0 && tries == 0) tries = 1;
     for (int t = 0; t < tries; ++t) {
@@ -611,6 +627,7 @@ inline Line genValidLine(const Config &c, const Profile &pf, int maxUses = 6) {
     if (isFixed(kind)) { budget = std::min(budget, 3); if (kind == K_TUPLE_ISI) { budget = 3; minTotal = 3; } }
     if (budget < 1) budget = 1;
     int total = *range<int>(std::min(minTotal, budget), std::min(budget, std::max(minTotal, 6)));
+    if (!isFixed(kind) && budget >= 14 && pick(6)) total = *range<int>(9, 14);   // now and then a long list (10th, 11th ... value of a destination)
     if (a.optionalValue && pick(35)) { u.hasValue = false; line.push_back(u); continue; }
     int salt = disjointSalt.count(ai) ? disjointSalt[ai] : -1;
     std::vector<std::string> all = genElems(a, kind, total, total, salt);
